@@ -132,6 +132,7 @@ def op_strategy(features):
                 st.tuples(st.just('conflict_commit'), n),
                 st.tuples(st.just('pickle_fail_commit'), n),
                 st.tuples(st.just('close_reopen')),
+                st.tuples(st.just('stray_write'), n, slot),
                 st.tuples(st.just('minimize'))]
     if 'savepoint' in features:
         # savepoint-heavy mix: long transactions with many savepoints and rollbacks
@@ -275,15 +276,39 @@ class FailingRM:
         pass
 
 
+def explicit_tm():
+    """an explicit-mode transaction manager that begins the next transaction right after each one ends,
+    so that programs written for the implicit mode run unchanged"""
+    import transaction
+
+    class ExplicitTM(transaction.TransactionManager):
+        def __init__(self):
+            super().__init__(explicit=True)
+            self.begin()
+
+        def commit(self):
+            super().commit()
+            self.begin()
+
+        def abort(self):
+            super().abort()
+            self.begin()
+
+        def end_without_begin(self):
+            super().abort()
+    return ExplicitTM()
+
+
 class World:
-    def __init__(self, storage_factory, out, prop, lenient_disowned):
+    def __init__(self, storage_factory, out, prop, lenient_disowned, explicit=False):
         import transaction
         import ZODB
         self.out = out
         self.prop = prop
         self.storage_factory = storage_factory
         self.db = ZODB.DB(storage_factory())
-        self.tm = transaction.TransactionManager()
+        self.explicit = explicit
+        self.tm = explicit_tm() if explicit else transaction.TransactionManager()
         self.conn = self.db.open(self.tm)
         self.tm2 = transaction.TransactionManager()
         self.m = OModel(lenient_disowned)
@@ -453,6 +478,8 @@ class World:
             self.close_reopen()
         elif k == 'minimize':
             self.conn.cacheMinimize()
+        elif k == 'stray_write':
+            self.stray_write(self.pick(op[1]), op[2])
         elif k == 'savepoint':
             self.savepoint()
         elif k == 'rollback':
@@ -628,6 +655,32 @@ class World:
         self.tm.abort()
         self.labels.add('conflict')
         self.after_abort('conflicting commit', before, interesting)
+
+    def stray_write(self, n, slot):
+        """explicit transaction mode: a write while no transaction is active is refused by the transaction
+        manager (NoTransaction); the connection has not joined anything and works normally afterwards"""
+        from transaction.interfaces import NoTransaction
+        m = self.m
+        if not self.explicit or self.had_work() or self.sps or n == 'root' or n not in m.committed:
+            return
+        o = self.objs[n]
+        o._p_activate()
+        self.tm.end_without_begin()
+        try:
+            raw_set(o, slot, -77)
+        except NoTransaction:
+            self.labels.add('write-outside-transaction-refused')
+        else:
+            # (the explicit mode's contract: joining fails with NoTransaction - unless the connection
+            # wrongly believes it has joined a transaction already)
+            self.fail('explicit-mode', 'write-outside-transaction-accepted',
+                      'a write to %s while no transaction was active was accepted: the connection did not try to join' % n)
+            self.tm.begin()
+            return
+        # containers mutate their data before they register: drop whatever the refused write left
+        o._p_invalidate()
+        self.tm.begin()
+        self.check_mem('after a refused write outside a transaction', [n])
 
     def close_reopen(self):
         from ZODB.POSException import ConnectionStateError
